@@ -65,6 +65,25 @@ def run(cx, chk):
     # R2: drop guards. Crate types with a Drop impl (other than the caches) are executed by the interpreter when they go out of scope and,
     # from every user-code site whose cleanup chain drops one, along the unwinding path (absint.explore_unwind). What the guard's
     # Drop::drop does to nodes is judged by the typestate walker: re-boxing a node that is still linked or indexed = dangling entry.
+    chk.rule("C18.R5", "after an unwind that left a node linked but unindexed (a permitted leak), later operations stop with a safe panic (unwrap on the failed own-key lookup): "
+                       "no unwrap_unchecked / unreachable_unchecked / get_unchecked / unchecked arithmetic / intrinsics::assume replaces such a check anywhere in the crate")
+    UNCHECKED = ("unwrap_unchecked", "unreachable_unchecked", "get_unchecked", "get_unchecked_mut", "unchecked_add", "unchecked_sub", "unchecked_mul", "assume", "assert_unchecked", "unwrap_err_unchecked")
+    for cfg, F in cx.cfgs():
+        n_calls = 0
+        for b in F.doc["bodies"]:
+            fn = F.fns[b["path"]]
+            for blk in b["blocks"]:
+                t = blk["t"]
+                if t["k"] != "call" or "q" not in t["f"] or t.get("exp"):
+                    continue
+                n_calls += 1
+                q = (t["f"].get("resolved") or t["f"])["q"]
+                if q.split("::")[-1] in UNCHECKED and q.startswith(("core::", "std::", "alloc::")):
+                    chk.violation("C18.R5", "%s|%s" % (fn["q"], q.split("::")[-1]), "%s calls %s: where HEAD's check turns a cache damaged by an earlier unwind into a safe panic, this is undefined behaviour" % (fn["q"], q),
+                                  fn["span"]["file"], t["ln"], fn["q"], None, cfg)
+        chk.floor("C18.R5", "calls scanned in %s" % cfg, n_calls, 800)
+        if not any(k.startswith("C18.R5|") for k in chk.violations):
+            chk.ob("C18.R5", cfg + ":unchecked", "no unchecked assumption among %d calls" % n_calls)
     chk.rule("C18.R2", "drop guards: on every unwinding path out of a user-code site, and on every normal path, a guard frees a node only while it is unlinked and unindexed, and never twice")
     from .lib import nt as ntmod
     for cfg, F in cx.cfgs():
